@@ -87,14 +87,7 @@ impl World {
                     if !self.fails.is_empty() || self.side().model.len() == 0 {
                         break;
                     }
-                    match which % 3 {
-                        0 => self.do_remove("remove_lru", None, Level::Light),
-                        1 => self.do_remove("remove_mru", None, Level::Light),
-                        _ => {
-                            let sel = KeySel::Nth(32768);
-                            self.do_remove("remove", Some((&sel, if r % 2 == 0 { Form::Owned } else { Form::Borrowed })), Level::Light);
-                        },
-                    }
+                    self.light_remove(*which, r);
                     if !self.fails.is_empty() {
                         break;
                     }
@@ -141,7 +134,99 @@ impl World {
 
     // ------------------------------------------------------------ insert
 
+    /// Bulk path (InsertMany / Churn): constant work per insertion — return
+    /// value, model, evictions, scalars, growth target and hash count — and a
+    /// full observation by the caller at the end.
+    fn light_insert(&mut self, k: u16, vheap: usize) {
+        self.pending_inject = None;
+        let entry = self.e0 + vheap;
+        let limit = self.side().model.limit;
+        if entry > limit || self.side().model.contains(k) {
+            // the bulk path only does plain fresh insertions
+            self.do_insert_full(k, 0, vheap, Level::Full, "abs");
+            return;
+        }
+        let tag = self.step as u32;
+        let key = mk_key(k, 0);
+        let val = mk_val(tag, vheap);
+        let (kid, vid) = (key.id, val.id);
+        give_to_cache(&key, &val);
+        let tid = self.side().cache().verif_table_identity();
+        let len_before = self.side().model.len();
+        let run = self.run(&[], move |c| c.insert(key, val));
+        if let Some(msg) = &run.panic {
+            self.unexpected_panic("insert", msg);
+            return;
+        }
+        self.stats.steps += 1;
+        match run.ret.unwrap() {
+            Ok(None) => { },
+            Ok(Some(v)) => {
+                self.fail(vec!["C04"], "insert-phantom-old".into(), format!("insert of absent key {} returned an old value (id {})", k, v.id));
+                self.take_val(v, "insert (phantom)");
+            },
+            Err(InsertError::EntryTooLarge { key, value, .. }) => {
+                self.fail(vec!["C10"], "insert-spurious-toolarge".into(), format!("insert of an entry of size {} failed although max_size is {}", entry, limit));
+                self.take_key(key, "insert error");
+                self.take_val(value, "insert error");
+                return;
+            },
+        }
+        let m = &mut self.side_mut().model;
+        let evicted = m.evict_to(limit - entry);
+        m.push(Ent { k, key_id: kid, val_id: vid, kheap: 0, vheap, tag, size: entry });
+        self.expect_dropped(&evicted, vec!["C06"], "evicted by insert");
+        self.expect_evicted_in_order(&evicted, "insert");
+        self.collect_vios("insert");
+        let (len, cur, cap, tid2) = {
+            let c = self.side().cache();
+            (c.len(), c.current_size(), c.capacity(), c.verif_table_identity())
+        };
+        let (ml, mt) = (self.side().model.len(), self.side().model.total());
+        ck!(self, len == ml, ["C02", "C04"], "bulk-len", "after a bulk insert len() is {} but {} entries are held", len, ml);
+        ck!(self, cur == mt, ["C02"], "bulk-size", "after a bulk insert current_size() is {} but entries sum to {}", cur, mt);
+        ck!(self, cur <= limit, ["C01"], "bound", "current_size() = {} exceeds max_size() = {}", cur, limit);
+        let rebuilt = tid2 != tid;
+        let bound = 2 + evicted.len() as u64 + if rebuilt { len_before.max(len) as u64 } else { 0 };
+        ck!(self, run.builds <= bound, ["C20"], "hashes:insert",
+            "insert computed {} key hashes; bound is 2 + {} departed{} = {} (len {} -> {})", run.builds, evicted.len(),
+            if rebuilt { " + held entries (table rebuilt)" } else { "" }, bound, len_before, len);
+        if rebuilt {
+            let want = self.fresh((2 * len.saturating_sub(1)).max(1));
+            ck!(self, cap == want, ["C13"], "growth-size",
+                "insertion grew the table to capacity {} with {} entries; the smallest table holding twice the {} previous entries has capacity {}",
+                cap, len, len.saturating_sub(1), want);
+            self.stats.ev("rebuild.growth");
+        }
+        let peak = self.side().peak_len.max(len);
+        let requested = self.side().requested_cap;
+        let doubled = self.fresh(2 * peak);
+        ck!(self, cap <= doubled.max(requested).max(3), ["C13"], "cap-bound",
+            "capacity {} exceeds what growth by doubling ({} for peak len {}) or explicit requests ({}) explain", cap, doubled, peak, requested);
+        let s = self.side_mut();
+        s.peak_len = peak;
+        if !evicted.is_empty() {
+            s.wc_track = None;
+        }
+        else if let Some((n, c0, f)) = s.wc_track {
+            s.wc_track = Some((n, c0, f + 1));
+            if f + 1 <= n && cap != c0 {
+                self.fail(vec!["C13"], "with-capacity".into(),
+                    format!("cache created with_capacity({}) changed capacity {} -> {} after {} fresh insertions", n, c0, cap, f + 1));
+            }
+        }
+    }
+
     pub fn do_insert(&mut self, k: u16, kheap: usize, vheap: usize, level: Level, cls: &'static str) {
+        if level == Level::Light && kheap == 0 {
+            self.light_insert(k, vheap);
+        }
+        else {
+            self.do_insert_full(k, kheap, vheap, level, cls);
+        }
+    }
+
+    fn do_insert_full(&mut self, k: u16, kheap: usize, vheap: usize, level: Level, cls: &'static str) {
         let pre = self.pre();
         let inj = self.injected();
         let entry = self.e0 + kheap + vheap;
@@ -209,6 +294,7 @@ impl World {
                 let evicted = m.evict_to(limit - entry);
                 m.push(Ent { k, key_id: kid, val_id: vid, kheap, vheap, tag, size: entry });
                 self.side_mut().desynced.remove(&k);
+                self.side_mut().shrunk.remove(&k);
                 match (&replaced, old) {
                     (None, None) => { },
                     (Some(r), Some(v)) => {
@@ -234,6 +320,7 @@ impl World {
                     info.asked.insert(k);
                 }
                 self.expect_dropped(&evicted, vec!["C06"], "evicted by insert");
+                self.expect_evicted_in_order(&evicted, "insert");
                 if !evicted.is_empty() {
                     self.stats.ev("evict.insert");
                     if evicted.len() >= 2 { self.stats.ev("evict.insert.multi"); }
@@ -499,6 +586,47 @@ impl World {
 
     // ------------------------------------------------------------ removal
 
+    /// Bulk path of Churn: constant work per removal.
+    fn light_remove(&mut self, which: u8, round: u16) {
+        self.pending_inject = None;
+        let n = self.side().model.len();
+        if n == 0 {
+            return;
+        }
+        let (pos, name): (usize, &'static str) = match which % 3 { 0 => (0, "remove_lru"), 1 => (n - 1, "remove_mru"), _ => (n / 2, "remove") };
+        let k = self.side().model.order[pos].k;
+        let q = mk_key(k, 0);
+        let qid = q.id;
+        let run = self.run(&[qid], |c| match which % 3 {
+            0 => c.remove_lru(),
+            1 => c.remove_mru(),
+            _ => if round % 2 == 0 { c.remove_entry(&q) } else { c.remove_entry(&k) },
+        });
+        drop(q);
+        if let Some(msg) = &run.panic {
+            self.unexpected_panic(name, msg);
+            return;
+        }
+        self.stats.steps += 1;
+        let e = self.side_mut().model.remove_at(pos);
+        self.side_mut().wc_track = None;
+        match run.ret.unwrap() {
+            Some((gk, gv)) => {
+                ck!(self, gk.id == e.key_id && gv.id == e.val_id, ["C04", "C06"], format!("remove-val:{}", name),
+                    "{} returned ids {}/{} but the entry for key {} had {}/{}", name, gk.id, gv.id, e.k, e.key_id, e.val_id);
+                self.take_key(gk, name);
+                self.take_val(gv, name);
+            },
+            None => self.fail(vec!["C04"], format!("remove-missed:{}", name), format!("{} did not find key {}", name, e.k)),
+        }
+        ck!(self, run.builds <= 2, ["C20"], format!("hashes:{}", name), "{} computed {} key hashes; bound is 2", name, run.builds);
+        self.collect_vios(name);
+        let (len, cur) = { let c = self.side().cache(); (c.len(), c.current_size()) };
+        let (ml, mt) = (self.side().model.len(), self.side().model.total());
+        ck!(self, len == ml && cur == mt, ["C02"], "bulk-remove-accounting",
+            "after {} len/current_size are {}/{} but {} entries of total size {} are held", name, len, cur, ml, mt);
+    }
+
     fn do_remove(&mut self, name: &'static str, key: Option<(&KeySel, Form)>, level: Level) {
         let pre = self.pre();
         let inj = self.injected();
@@ -569,6 +697,7 @@ impl World {
                     self.stats.ev("remove.colliding");
                 }
                 self.side_mut().desynced.remove(&e.k);
+                self.side_mut().shrunk.remove(&e.k);
             },
             (None, Some((gk, gv))) => {
                 self.fail(vec!["C04"], format!("remove-phantom:{}", name),
@@ -617,6 +746,7 @@ impl World {
                     tracked::free_callback(Cb::Closure);
                 }
                 v.heap = new_vheap;
+                v.spare = 0;
                 v.tag = v.tag.wrapping_add(1);
                 if late {
                     tracked::free_callback(Cb::Closure);
@@ -670,7 +800,7 @@ impl World {
                         Err(MutateError::EntryTooLarge { key, value, old_entry_size, new_entry_size, max_size }) => {
                             ck!(self, key.id == e.key_id && value.id == e.val_id, ["C11", "C06"], "mutate-err-identity",
                                 "EntryTooLarge returned ids {}/{} but the cached entry had {}/{}", key.id, value.id, e.key_id, e.val_id);
-                            ck!(self, value.heap == new_vheap && value.tag == e.tag.wrapping_add(1), ["C11"], "mutate-err-value",
+                            ck!(self, value.measured() == new_vheap && value.tag == e.tag.wrapping_add(1), ["C11"], "mutate-err-value",
                                 "EntryTooLarge returned a value with heap {} tag {}, the mutated value has heap {} tag {}",
                                 value.heap, value.tag, new_vheap, e.tag.wrapping_add(1));
                             ck!(self, old_entry_size == e.size && new_entry_size == new_size && max_size == limit,
@@ -714,10 +844,11 @@ impl World {
                     let m = &mut self.side_mut().model;
                     m.order[i].vheap = new_vheap;
                     m.order[i].tag = e.tag.wrapping_add(1);
-                    m.order[i].size = new_size;
+                    m.set_size(i, new_size);
                     m.promote(i);
                     let evicted = if grow { m.evict_to(limit) } else { vec![] };
                     self.expect_dropped(&evicted, vec!["C06"], "evicted by mutate");
+                    self.expect_evicted_in_order(&evicted, "mutate");
                     info.promoting = true;
                     info.evicting = grow;
                     info.incoming = Some(new_size);
@@ -763,6 +894,7 @@ impl World {
         let evicted = m.evict_to(new_limit);
         m.limit = new_limit;
         self.expect_dropped(&evicted, vec!["C06"], "evicted by set_max_size");
+        self.expect_evicted_in_order(&evicted, "set_max_size");
         if !evicted.is_empty() {
             self.side_mut().wc_track = None;
             self.stats.ev("evict.limit");
